@@ -77,7 +77,7 @@ type DeclCfg struct {
 }
 
 var shortPoolASCII = []rune("abcdefgijklmnopqrstuvwxyzABCDEFGHIJKLMNOPQRSTUVWXYZ0123456789")
-var shortPoolWide = []rune("éßλЖ世😀ñø\ufffd")
+var shortPoolWide = []rune("éßλЖ世😀ñø\ufffdд4ŁAţc") // (д/4, Ł/A, ţ/c agree in their low byte)
 
 type namer struct {
 	r       *Rand
@@ -744,6 +744,8 @@ func GenScalarText(r *Rand, k TK, base int, variant int) string {
 		}
 	case k == KCelsius:
 		return fmt.Sprintf("%dC", r.Intn(2000)-1000)
+	case k == KLevel:
+		return strconv.Itoa(r.Intn(4000) - 2000)
 	case k == KPoint:
 		return fmt.Sprintf("%d,%d", r.Intn(200)-100, r.Intn(200)-100)
 	}
@@ -837,6 +839,7 @@ func init() {
 		TypeSpec{K: KOnOff}, TypeSpec{K: KOnOff, W: WSlice}, TypeSpec{K: KOnOff, W: WPtr},
 		TypeSpec{K: KInt, W: WMap, MapKey: KRes}, TypeSpec{K: KRes},
 		TypeSpec{K: KString, W: WFunc1PErr},
+		TypeSpec{K: KLevel}, TypeSpec{K: KLevel, W: WSlice}, TypeSpec{K: KLevel, W: WPtr},
 	)
 	typesAll = append(append([]TypeSpec{}, typesAllArgs...), typesFlags...)
 	typesAll = append(typesAll, typesFlags...) // weight flags a little higher
